@@ -60,6 +60,12 @@ pub enum Spelling {
 	Escaped,
 	Raw,
 	RawHashes,
+	/// every character as \u{..}, ASCII included
+	UnicodeEsc,
+	/// every ASCII character as \xNN, the others as \u{..}
+	HexEsc,
+	/// a backslash-newline continuation (skips the following white space) after the first character
+	Continuation,
 }
 
 fn is_plain(c: char) -> bool {
@@ -85,6 +91,38 @@ pub fn spell(text: &str, sp: Spelling) -> Option<String> {
 			}
 			s.push('"');
 			Some(s)
+		}
+		Spelling::UnicodeEsc => {
+			let mut s = String::from("\"");
+			for c in text.chars() {
+				s.push_str(&format!("\\u{{{:x}}}", c as u32));
+			}
+			s.push('"');
+			Some(s)
+		}
+		Spelling::HexEsc => {
+			let mut s = String::from("\"");
+			for c in text.chars() {
+				if (c as u32) < 0x80 {
+					s.push_str(&format!("\\x{:02x}", c as u32));
+				} else {
+					s.push_str(&format!("\\u{{{:X}}}", c as u32));
+				}
+			}
+			s.push('"');
+			Some(s)
+		}
+		Spelling::Continuation => {
+			// only when the character after the break is not white space (which the continuation would eat)
+			let esc = spell(text, Spelling::Escaped)?;
+			let mut it = text.chars();
+			let first = it.next()?;
+			let second = it.next()?;
+			if second.is_whitespace() || first == '\\' || first == '"' || !is_plain(first) || matches!(first, '\n' | '\t' | '\r' | '\0') {
+				return None;
+			}
+			let cut = 1 + first.len_utf8();
+			Some(format!("{}\\\n    {}", &esc[..cut], &esc[cut..]))
 		}
 		Spelling::Raw => {
 			if text.contains('"') || !text.chars().all(is_plain) {
@@ -200,6 +238,14 @@ pub fn cases(refs: &Refs, quick: bool, warm: bool) -> Vec<Case> {
 					}
 				}
 			}
+			// escape-only spellings (the literal TOKEN differs, the value does not)
+			if i % 4 == 1 || t.len() < 6 {
+				for sp in [Spelling::UnicodeEsc, Spelling::HexEsc, Spelling::Continuation] {
+					if spell(t, sp).is_some() {
+						out.push(Case { mac, text: t.clone(), spelling: sp, expect });
+					}
+				}
+			}
 		}
 	}
 	out
@@ -254,9 +300,18 @@ fn mkv(c: &Case, what: &str) -> Violation {
 fn acceptance_set(ctx: &Ctx, dir: &Path, cs: &[Case]) -> Result<BTreeSet<usize>, String> {
 	let mut src = String::from("#![allow(dead_code)]\n");
 	// invocation i is on line i + 2
+	// (a literal spelled with a continuation spans two source lines: real line -> invocation)
+	let mut line_to_case: std::collections::BTreeMap<usize, usize> = std::collections::BTreeMap::new();
+	let mut cur_line = 2usize;
 	for (i, c) in cs.iter().enumerate() {
 		let lit = spell(&c.text, c.spelling).unwrap();
-		src.push_str(&format!("const C{i}: &iref::{} = iref::{}!({lit});\n", c.mac.ty(), c.mac.name()));
+		let item = format!("const C{i}: &iref::{} = iref::{}!({lit});\n", c.mac.ty(), c.mac.name());
+		let n = item.matches('\n').count();
+		for k in 0..n {
+			line_to_case.insert(cur_line + k, i);
+		}
+		cur_line += n;
+		src.push_str(&item);
 	}
 	src.push_str("fn main() {}\n");
 	std::fs::write(dir.join("src/bin/prog1.rs"), &src).map_err(|e| e.to_string())?;
@@ -283,8 +338,10 @@ fn acceptance_set(ctx: &Ctx, dir: &Path, cs: &[Case]) -> Result<BTreeSet<usize>,
 		for sp in m["spans"].as_array().cloned().unwrap_or_default() {
 			if sp["file_name"].as_str().map(|f| f.ends_with("prog1.rs")).unwrap_or(false) {
 				if let Some(ln) = sp["line_start"].as_u64() {
-					lines.insert(ln as usize);
-					located = true;
+					if let Some(i) = line_to_case.get(&(ln as usize)) {
+						lines.insert(i + 2);
+						located = true;
+					}
 				}
 			}
 		}
@@ -438,7 +495,7 @@ fn judge(ctx: &Ctx, cs: &[Case], report: &mut Report) {
 pub fn run(ctx: &Ctx) -> Report {
 	let refs = Refs::new(&ctx.root);
 	let mut r = Report::new();
-	r.rule = "programs = one macro invocation (uri!, uri_ref!, iri!, iri_ref!) on one string literal; literals = transition cover S ∪ S·K of the reference DFA of the macro's type (every state, every transition over the class alphabet), continued by characterisation suffixes, plus literals needing escapes ({ } # \" \\ control characters, non-ASCII, bidi controls); each in up to three Rust spellings (escaped, raw, raw with hashes); all compiled by the real rustc with the real proc-macro: acceptance set from one `cargo check`, accepted constants compared with the run-time parse in a second, executed program; non-trivial = distinct (macro, literal, spelling)".into();
+	r.rule = "programs = one macro invocation (uri!, uri_ref!, iri!, iri_ref!) on one string literal; literals = transition cover S ∪ S·K of the reference DFA of the macro's type (every state, every transition over the class alphabet), continued by characterisation suffixes, plus literals needing escapes ({ } # \" \\ control characters, non-ASCII, bidi controls); each in up to six Rust spellings (minimal escapes, raw, raw with hashes, every character as \\u{..}, ASCII as \\xNN, backslash-newline continuation); all compiled by the real rustc with the real proc-macro: acceptance set from one `cargo check`, accepted constants compared with the run-time parse in a second, executed program; non-trivial = distinct (macro, literal, spelling)".into();
 	let warm = std::env::var("VERIF_C17_WARM").is_ok();
 	let cs = cases(refs, ctx.quick(), warm);
 	for c in cs.iter().step_by((cs.len() / 8).max(1)) {
@@ -459,6 +516,9 @@ pub fn replay(ctx: &Ctx, _check: &str, input: &Value) -> Vec<Violation> {
 	let spelling = match input["spelling"].as_str() {
 		Some("Raw") => Spelling::Raw,
 		Some("RawHashes") => Spelling::RawHashes,
+		Some("UnicodeEsc") => Spelling::UnicodeEsc,
+		Some("HexEsc") => Spelling::HexEsc,
+		Some("Continuation") => Spelling::Continuation,
 		_ => Spelling::Escaped,
 	};
 	let (f, k) = mac.fam_kind();
